@@ -32,7 +32,7 @@ ASSUMPTIONS = [
     "pristine results come from fresh interpreter processes started by the shard",
 ]
 MINIMUM = {"C15.evaluate_steps_judged": 400, "C15.input_hashes_checked": 400, "C15.real_pool_judged": 8, "C15.option_combinations_judged": 100, "C15.snapshots_checked": 400}
-BUDGET_S = {"quick": 600, "thorough": 900}
+BUDGET_S = {"quick": 1200, "thorough": 900}
 SHARDS = {"quick": 16, "thorough": 900}
 
 CONFIGS = [
